@@ -246,11 +246,15 @@ class MTVRPEnv(RL4COEnvBase):
             )
             > 0
         )
+        # tolerance as in CVRPEnv: a load that fills the vehicle exactly must stay feasible when the
+        # partial sums of the scaled float demands (k / capacity) round up by an ulp
         exceeds_cap_linehaul = (
-            td["demand_linehaul"] + td["used_capacity_linehaul"] > td["vehicle_capacity"]
+            td["demand_linehaul"] + td["used_capacity_linehaul"]
+            > td["vehicle_capacity"] + 1e-5
         )
         exceeds_cap_backhaul = (
-            td["demand_backhaul"] + td["used_capacity_backhaul"] > td["vehicle_capacity"]
+            td["demand_backhaul"] + td["used_capacity_backhaul"]
+            > td["vehicle_capacity"] + 1e-5
         )
 
         meets_demand_constraint = (
@@ -359,7 +363,7 @@ class MTVRPEnv(RL4COEnvBase):
                 used_cap = used_cap * (actions[:, ii] != 0)
                 used_cap += demand[:, ii]
                 assert (
-                    used_cap <= td["vehicle_capacity"].squeeze(-1)
+                    used_cap <= td["vehicle_capacity"].squeeze(-1) + 1e-5
                 ).all(), "Used more than capacity for {}: {}".format(feature, used_cap)
 
         _check_c1("demand_linehaul")
